@@ -74,6 +74,17 @@ func limbScalars() []*big.Int {
 		add(new(big.Int).Sub(blsR, p))
 		add(new(big.Int).Sub(blsR, new(big.Int).Sub(p, one)))
 	}
+	// half-limb (32-bit) boundaries and sparse scalars (a width test that looks at part of a limb, a window that is
+	// skipped when a range of bits is zero)
+	for b := 32; b <= 224; b += 32 {
+		p := new(big.Int).Lsh(one, uint(b))
+		add(p)
+		add(new(big.Int).Add(p, big.NewInt(5)))
+		add(new(big.Int).Sub(p, one))
+	}
+	add(new(big.Int).Add(new(big.Int).Lsh(one, 254), new(big.Int).Add(new(big.Int).Lsh(one, 191), one)))
+	add(new(big.Int).Add(new(big.Int).Lsh(one, 224), new(big.Int).Lsh(one, 96)))
+	add(new(big.Int).Add(new(big.Int).Lsh(one, 160), new(big.Int).Lsh(one, 31)))
 	add(one)
 	add(new(big.Int).Lsh(one, 63))
 	add(new(big.Int).Sub(new(big.Int).Lsh(one, 127), one))
@@ -474,6 +485,68 @@ func genC04(c *Ctx) {
 		}
 	}
 	genAggLengths(c)
+	// pairs of curve points (no subgroup check in aggregation, by design) whose abscissas differ by a value with a
+	// structured MONTGOMERY form (x * 2^384 mod p): the intermediate Z of the first addition is that difference, and a
+	// shortcut that inspects only some limbs of Z ("is it one?", "is it zero?") is wrong exactly there
+	{
+		R := new(big.Int).Lsh(big.NewInt(1), 384)
+		Rinv := new(big.Int).ModInverse(R, blsP)
+		montOne := new(big.Int).Mod(R, blsP)
+		var targets []*big.Int
+		for _, k := range []int64{1, 2, 3, 1 << 40} {
+			// the low 256 bits of the Montgomery form of one, other high limbs
+			low := new(big.Int).And(montOne, new(big.Int).Sub(new(big.Int).Lsh(big.NewInt(1), 256), big.NewInt(1)))
+			hi := new(big.Int).Rsh(montOne, 256)
+			hi.Add(hi, big.NewInt(k))
+			v := new(big.Int).Add(low, new(big.Int).Lsh(hi, 256))
+			if v.Cmp(blsP) < 0 {
+				targets = append(targets, v)
+			}
+			targets = append(targets, new(big.Int).Lsh(big.NewInt(k), 256), new(big.Int).Lsh(big.NewInt(k), 320), new(big.Int).Lsh(big.NewInt(k), 128))
+		}
+		xOf := func(enc []byte) *big.Int { return new(big.Int).SetBytes(append([]byte{enc[0] & 0x1f}, enc[1:]...)) }
+		exact := func(x *big.Int) []byte { // the encoding of a point with abscissa exactly x, or nil
+			a := ask("e1 lift 0x" + x.Text(16))
+			if !strings.HasPrefix(a, "ok ") {
+				return nil
+			}
+			enc := unhexOr(a[3:])
+			if len(enc) != 48 || xOf(enc).Cmp(x) != 0 {
+				return nil
+			}
+			return enc
+		}
+		for ti, tv := range targets {
+			dd := new(big.Int).Mul(tv, Rinv)
+			dd.Mod(dd, blsP)
+			found := 0
+			for try := 0; try < 60 && found < 2; try++ {
+				x1 := new(big.Int).Mod(new(big.Int).SetBytes(c.bytes(48)), blsP)
+				p1 := exact(x1)
+				if p1 == nil {
+					continue
+				}
+				p2 := exact(new(big.Int).Mod(new(big.Int).Add(x1, dd), blsP))
+				if p2 == nil {
+					continue
+				}
+				found++
+				for _, list := range [][]crypto.Signature{{p1, p2}, {p2, p1}, {p1, p2, p1}} {
+					var bh []string
+					for _, s := range list {
+						bh = append(bh, hx(s))
+					}
+					c.Case(fmt.Sprintf("agg-sig-montgomery-difference/%d", ti%4), "agg.sig "+strings.Join(bh, " "), guard(func() string {
+						s, err := crypto.AggregateBLSSignatures(list)
+						if err != nil {
+							return "err " + errClass(err)
+						}
+						return "ok " + hx(s)
+					}))
+				}
+			}
+		}
+	}
 	// call histories on one OS thread: an accepted aggregation, an aggregation REJECTED for an entry that fails only
 	// after decompression has begun (x >= p, x not on the curve, flag combinations), then aggregations of the entries
 	// accepted before (a memo of the last decompressed point that a rejected entry leaves half-updated)
